@@ -20,6 +20,13 @@ package compiler
 //   * the property is silent about an ERROR leaving an activation: Ego abandons the activation
 //     without running its deferred calls; the reference does the same, also when the error comes
 //     out of one of its deferred calls (while a panic unwinds, that error ends the program).
+//   * `return <expr>`: with a NAMED result <expr> is evaluated, then the deferred calls run (Go).
+//     With an UNNAMED result the deferred calls run first and <expr> is evaluated afterwards: this
+//     is Ego's documented order -- its own tests (tests/defer/basic.ego, tests/flow/defer.ego)
+//     require that a deferred closure assigning a local changes what `return r` yields.  A
+//     deferred call that has run is done: whatever <expr> then does (panic, error caught by a try
+//     of the same function after which the function returns again), it does not run a second
+//     time -- "exactly once each".
 // Flags record which of these corner rules a run used; they select the failure class.
 
 import (
@@ -50,9 +57,12 @@ type c10Pan struct {
 }
 
 type c10Act struct {
-	defers [][]c10Stmt
-	rec    *c10Pan // panic a direct recover() in this activation may stop (nil: none)
-	left   bool    // a catch block of this activation was left by break / continue (coverage only)
+	defers []*c10Stmt // registered and not yet run
+	rec    *c10Pan    // panic a direct recover() in this activation may stop (nil: none)
+	left   bool       // a catch block of this activation was left by break / continue (coverage only)
+	kind   byte       // 'u' / 'n' / 0: result kind of the function (0 for a deferred closure)
+	retErr bool       // an error is travelling up from the expression of an unnamed-result return
+	//                   statement that had deferred calls to run first
 }
 
 type c10Ref struct {
@@ -65,6 +75,12 @@ type c10Ref struct {
 	errInDefer     bool // an error escaped a deferred call
 	errAbandonsDef bool // an error left an activation that had registered defers
 	recoverOuter   bool // recover() returned nil (Go rule) while an outer panic was still in progress
+	// an unnamed-result `return <expr>` ran >= 1 deferred calls and <expr> then panicked, or raised
+	// an error caught by a try of the same activation (which therefore goes on and ends again later)
+	retExprFailed bool
+	retExprs      int // return-with-expression statements executed with >= 1 deferred call registered
+	regs          map[int]int // defer statement -> times registered
+	starts        []int       // deferred closures started, in order
 	inProgress     int  // panics currently unwinding (dynamic nesting)
 	recovered      int
 	caught         int
@@ -109,6 +125,11 @@ func (m *c10Ref) stmt(s *c10Stmt, a *c10Act) c10Sig {
 				m.caughtAfterLeft++
 			}
 
+			if a.retErr {
+				m.retExprFailed = true
+				a.retErr = false
+			}
+
 			cs := m.block(s.B, a)
 			if cs == c10Break || cs == c10Continue {
 				m.catchLeft++
@@ -120,11 +141,55 @@ func (m *c10Ref) stmt(s *c10Stmt, a *c10Act) c10Sig {
 
 		return sg
 	case 'D':
-		a.defers = append(a.defers, s.A)
+		a.defers = append(a.defers, s)
+		m.regs[s.ID]++
 	case 'C':
-		return m.activation(m.p[s.N], nil)
+		return m.activation(m.p[s.N], nil, c10Kind(m.p[s.N]))
 	case 'X':
 		return c10Return
+	case 'Y', 'Z', 'W':
+		ran := false
+
+		if len(a.defers) > 0 {
+			m.retExprs++
+		}
+
+		if a.kind == 'u' {
+			ran = len(a.defers) > 0
+
+			pan := &c10Pan{}
+			if sg := m.runDefers(a, pan); sg != c10Normal {
+				return sg
+			}
+
+			if pan.active {
+				m.pv = pan.v
+
+				return c10Panic
+			}
+		}
+
+		sg := c10Normal
+
+		switch s.Op {
+		case 'Y':
+			m.trace = append(m.trace, strconv.Itoa(s.N))
+		case 'Z':
+			sg = m.activation(m.p[s.N], nil, c10Kind(m.p[s.N]))
+		case 'W':
+			sg = c10Error
+		}
+
+		switch sg {
+		case c10Normal:
+			return c10Return
+		case c10Panic:
+			m.retExprFailed = m.retExprFailed || ran
+		case c10Error:
+			a.retErr = ran
+		}
+
+		return sg
 	case 'L':
 		for i := 0; i < s.N; i++ {
 			sg := m.block(s.A, a)
@@ -157,37 +222,17 @@ func (m *c10Ref) stmt(s *c10Stmt, a *c10Act) c10Sig {
 	return c10Normal
 }
 
-// activation runs a function body (or deferred closure body) to completion including its defers.
-func (m *c10Ref) activation(body []c10Stmt, rec *c10Pan) c10Sig {
-	m.depth++
-	if m.depth > m.maxDepth {
-		m.maxDepth = m.depth
-	}
-
-	defer func() { m.depth-- }()
-
-	a := &c10Act{rec: rec}
-	sg := m.block(body, a)
-
-	switch sg {
-	case c10Budget, c10Fatal:
-		return sg
-	case c10Error:
-		if len(a.defers) > 0 {
-			m.errAbandonsDef = true
-		}
-
-		return c10Error
-	}
-
-	pan := &c10Pan{}
-	if sg == c10Panic {
-		pan.active, pan.v = true, m.pv
-	}
-
+// runDefers runs the deferred calls registered in a and not yet run, last registered first; each
+// is taken off the list before it starts.  pan is the panic the activation is unwinding from (not
+// active: a normal exit); a deferred call may stop it (recover) or replace it (panic).
+func (m *c10Ref) runDefers(a *c10Act, pan *c10Pan) c10Sig {
 	unwinding := pan.active
 
-	for i := len(a.defers) - 1; i >= 0; i-- {
+	for len(a.defers) > 0 {
+		d := a.defers[len(a.defers)-1]
+		a.defers = a.defers[:len(a.defers)-1]
+		m.starts = append(m.starts, d.ID)
+
 		var ds c10Sig
 
 		counted := pan.active
@@ -196,9 +241,9 @@ func (m *c10Ref) activation(body []c10Stmt, rec *c10Pan) c10Sig {
 		}
 
 		if unwinding {
-			ds = m.activation(a.defers[i], pan)
+			ds = m.activation(d.A, pan, 0)
 		} else {
-			ds = m.activation(a.defers[i], nil)
+			ds = m.activation(d.A, nil, 0)
 		}
 
 		if counted {
@@ -223,6 +268,41 @@ func (m *c10Ref) activation(body []c10Stmt, rec *c10Pan) c10Sig {
 		}
 	}
 
+	return c10Normal
+}
+
+// activation runs a function body (or deferred closure body) to completion including its defers.
+func (m *c10Ref) activation(body []c10Stmt, rec *c10Pan, kind byte) c10Sig {
+	m.depth++
+	if m.depth > m.maxDepth {
+		m.maxDepth = m.depth
+	}
+
+	defer func() { m.depth-- }()
+
+	a := &c10Act{rec: rec, kind: kind}
+	sg := m.block(body, a)
+
+	switch sg {
+	case c10Budget, c10Fatal:
+		return sg
+	case c10Error:
+		if len(a.defers) > 0 {
+			m.errAbandonsDef = true
+		}
+
+		return c10Error
+	}
+
+	pan := &c10Pan{}
+	if sg == c10Panic {
+		pan.active, pan.v = true, m.pv
+	}
+
+	if ds := m.runDefers(a, pan); ds != c10Normal {
+		return ds
+	}
+
 	if pan.active {
 		m.pv = pan.v
 
@@ -233,9 +313,11 @@ func (m *c10Ref) activation(body []c10Stmt, rec *c10Pan) c10Sig {
 }
 
 func c10Reference(p c10Prog) (trace []string, status string, m *c10Ref) {
-	m = &c10Ref{p: p}
+	c10NumberDefers(p)
 
-	switch m.activation(p[0], nil) {
+	m = &c10Ref{p: p, regs: map[int]int{}}
+
+	switch m.activation(p[0], nil, c10Kind(p[0])) {
 	case c10Normal:
 		status = "ok"
 	case c10Error, c10Fatal:
@@ -257,7 +339,9 @@ func c10Reference(p c10Prog) (trace []string, status string, m *c10Ref) {
 
 func c10GoCompatible(b []c10Stmt) bool {
 	for _, s := range b {
-		if s.Op == 'T' || s.Op == 'R' {
+		// try / raise are not Go; a function with an unnamed result follows Ego's own rule for
+		// `return <expr>` (deferred calls first), which is deliberately not Go's
+		if s.Op == 'T' || s.Op == 'R' || s.Op == 'W' || s.Op == 'u' {
 			return false
 		}
 
@@ -269,7 +353,7 @@ func c10GoCompatible(b []c10Stmt) bool {
 	return true
 }
 
-func c10RenderGoBlock(sb *strings.Builder, prefix string, b []c10Stmt) {
+func c10RenderGoBlock(sb *strings.Builder, prefix string, b []c10Stmt, kind byte) {
 	for _, s := range b {
 		switch s.Op {
 		case 'E':
@@ -278,15 +362,19 @@ func c10RenderGoBlock(sb *strings.Builder, prefix string, b []c10Stmt) {
 			fmt.Fprintf(sb, "panic(%d)\n", s.N)
 		case 'D':
 			sb.WriteString("defer func() {\n")
-			c10RenderGoBlock(sb, prefix, s.A)
+			c10RenderGoBlock(sb, prefix, s.A, 0)
 			sb.WriteString("}()\n")
 		case 'C':
 			fmt.Fprintf(sb, "%sf%d()\n", prefix, s.N)
 		case 'X':
 			sb.WriteString("if always { return }\n")
+		case 'Y':
+			fmt.Fprintf(sb, "if always { return mkv(%d) }\n", s.N)
+		case 'Z':
+			fmt.Fprintf(sb, "if always { return %sf%d() }\n", prefix, s.N)
 		case 'L':
 			fmt.Fprintf(sb, "for i%d := 0; i%d < %d; i%d = i%d + 1 {\n", s.ID, s.ID, s.N, s.ID, s.ID)
-			c10RenderGoBlock(sb, prefix, s.A)
+			c10RenderGoBlock(sb, prefix, s.A, kind)
 			sb.WriteString("}\n")
 		case 'B':
 			sb.WriteString("if always { break }\n")
@@ -305,6 +393,7 @@ func c10GoTraces(dir string, progs []c10Prog) []string {
 
 	sb.WriteString("package main\nimport (\"fmt\"; \"strings\")\nvar tr []string\nvar always = true\n" +
 		"func mk(k int) { tr = append(tr, fmt.Sprint(k)) }\n" +
+		"func mkv(k int) int { tr = append(tr, fmt.Sprint(k)); return k }\n" +
 		"func mkr(v any) { if v == nil { tr = append(tr, \"rn\") } else { tr = append(tr, \"r\"+fmt.Sprint(v)) } }\n" +
 		"func run(f func()) { tr = nil; st := \"ok\"; func() { defer func() { if r := recover(); r != nil { st = \"panic\" } }(); f() }()\n" +
 		" s := strings.Join(tr, \",\"); if s == \"\" { s = \"-\" }; fmt.Println(s + \":\" + st) }\n")
@@ -313,8 +402,20 @@ func c10GoTraces(dir string, progs []c10Prog) []string {
 		prefix := fmt.Sprintf("p%d", i)
 
 		for j, f := range p {
-			fmt.Fprintf(&sb, "func %sf%d() {\n", prefix, j)
-			c10RenderGoBlock(&sb, prefix, f)
+			kind := c10Kind(f)
+
+			if kind == 'n' {
+				fmt.Fprintf(&sb, "func %sf%d() (r int) {\n", prefix, j)
+			} else {
+				fmt.Fprintf(&sb, "func %sf%d() {\n", prefix, j)
+			}
+
+			c10RenderGoBlock(&sb, prefix, f, kind)
+
+			if kind == 'n' {
+				sb.WriteString("return\n")
+			}
+
 			sb.WriteString("}\n")
 		}
 	}
@@ -322,7 +423,7 @@ func c10GoTraces(dir string, progs []c10Prog) []string {
 	sb.WriteString("func main() {\n")
 
 	for i := range progs {
-		fmt.Fprintf(&sb, "run(p%df0)\n", i)
+		fmt.Fprintf(&sb, "run(func() { p%df0() })\n", i)
 	}
 
 	sb.WriteString("}\n")
